@@ -128,6 +128,27 @@ def value_size_table(P, fn, depth=0):
                 t = value_size_table(P, g, depth + 1)
                 if t:
                     return t
+    # (d) a static helper of the file that takes the column reader and answers through a size out-parameter
+    # (`bool helper(const reader *r, size_t *size)`): executed once per enum value with r->type set
+    for c in fn.calls():
+        for g in P.by_name.get(c.callee or "", []):
+            if g.file != fn.file or not g.static or len(g.params) != 2:
+                continue
+            if "carquet_column_reader" not in g.params[0]["t"] or "size_t *" not in g.params[1]["t"].replace("const ", ""):
+                continue
+            ro = sem.field_offsets(P, "carquet_column_reader")
+            tab = {}
+            for name, val in list(P.enum("carquet_physical_type").items()) + [("default", 99)]:
+                heap0 = {("rd", ro["type"]): val, ("rd", ro["type_length"]): 7777}
+                try:
+                    ret, ev, heap = sem.run(P, g, [sem.Ptr("rd", 0, 1), sem.Ptr("out", 0, 8)], heap0=heap0)
+                except sem.Inconclusive:
+                    return None
+                got = heap.get(("out", 0)) if ret not in (0, False) else None
+                if isinstance(got, int):
+                    tab[name] = "type_length" if got == 7777 else got
+            if tab:
+                return tab
     return None
 
 
@@ -250,9 +271,23 @@ def run(ctx):
     ctx.floor("C02 scalar null-bitmap sites", len(sites), 15)
     for fn, n, cond in sites:
         c = cond.strip()
-        ok = c.k == "BinaryOperator" and c.op == "<" and "def" in src(c.c[0]) and "max_def" in src(c.c[1])
-        ctx.ob("R5.siblings", "bitmap-polarity|%s:%s" % (P.rel(fn.file), fn.name), P.where(n),
-               "null bit is set iff def_level < max_def_level", ok, src(cond))
+        # which operand is the per-value level (an element load) and which the column's maximum (a scalar):
+        # decided by shape, not by name, so a hoisted group pointer or a renamed bound changes nothing
+        def is_elem(x):
+            x = x.strip_casts()
+            return x.k == "ArraySubscriptExpr" or (x.k == "UnaryOperator" and x.op == "*")
+        l_, r_ = c.c[0], c.c[1]
+        op = c.op
+        if is_elem(r_) and not is_elem(l_):
+            l_, r_ = r_, l_
+            op = {"<": ">", ">": "<", "<=": ">=", ">=": "<=", "==": "==", "!=": "!="}[op]
+        key = "bitmap-polarity|%s:%s" % (P.rel(fn.file), fn.name)
+        if not is_elem(l_) or is_elem(r_):
+            ctx.inconclusive("R5.siblings", key, P.where(n), "null bit is set iff def_level < max_def_level",
+                             "cannot tell the level operand from the maximum in `%s`" % src(cond))
+            continue
+        ctx.ob("R5.siblings", key, P.where(n),
+               "null bit is set iff def_level < max_def_level", op == "<", src(cond))
     # zero-copy branch: calloc'ed bitmap
     # (wherever in the file the bitmap member is set: in next() itself or in a helper it calls)
     zc = [(f_, a) for f_ in P.funcs_in(BR) for a in f_.body.walk()
